@@ -195,6 +195,15 @@ WITNESSES = []
 # ---------------------------------------------------------------------------- running and printing
 
 def run_sched(c):
+  if c.get("lenient"):
+    # corpus witnesses: the listed schedule is followed as far as it applies to the code as it is now,
+    # then the non-pre-emptive default; the steps actually taken are what Coq replays
+    pre = c["sched"]
+    def ch(i, en, cur):
+      if i < len(pre) and pre[i] in en:
+        return pre[i]
+      return default_choice(i, en, cur)
+    return S.run_schedule(c["wait"], c["script"], ch, max_steps=MAX_STEPS + 50)
   return S.run_schedule(c["wait"], c["script"], follow(c["sched"], None), max_steps=MAX_STEPS + 50)
 
 
